@@ -64,6 +64,10 @@ def _check_operand_end(tokens):
     # A closed parenthesis cannot be followed by the start of a new operand.
     if tokens and isinstance(tokens[-1], Parenthesis) and tokens[-1].has_end:
         raise TokenError
+    if tokens and tokens[-1].name == '%':  # Neither can a postfix operator.
+        from .operator import Operator
+        if isinstance(tokens[-1], Operator):
+            raise TokenError
 
 
 def _update_n_args(stack):
